@@ -2,7 +2,492 @@
 
 package capacity
 
-import "verif/sim"
+// keeper-sim, scheduled part (C09, C13): keeper + plotter goroutine + massdb.v1 at bit length 7-8
+// inside a synctest bubble; 1-3 client goroutines issue single and bulk actions, queries, bursts,
+// keeper stop/start; the tape picks which parked goroutine runs at every inserted yield point.
 
-func zzRunC09(r *sim.Run) {}
-func zzRunC13(r *sim.Run) {}
+import (
+	"context"
+	"fmt"
+	"os"
+	"sort"
+	"strings"
+	"time"
+
+	"github.com/massnetorg/mass-core/poc/pocutil"
+	"massnet.org/mass/poc/engine"
+	massdb_v1 "massnet.org/mass/poc/engine/massdb/massdb.v1"
+	"verif/sim"
+	"verif/sim/vos"
+	"verif/sim/vsim"
+)
+
+type zzCall struct {
+	client   int
+	what     string // plot mine stop remove delete | bulk-* | query | proofs | keeper-stop | keeper-start
+	sid      string
+	inv, ret int // global event numbers; ret = 0 while in flight
+	err      error
+	acted    map[string]error // bulk actions: the spaces the keeper acted on
+}
+
+// applies reports whether call c (a single or bulk action) concerned space sid.
+func (c *zzCall) applies(sid string) bool {
+	if c.acted != nil {
+		_, ok := c.acted[sid]
+		return ok || c.ret == 0 // in flight: may still reach it
+	}
+	return c.sid == sid || c.sid == ""
+}
+
+type zzBub struct {
+	r       *sim.Run
+	focus   string
+	b       *vsim.Bubble
+	e       *zzEnvK
+	sk      *SpaceKeeper
+	seq     int
+	calls   []*zzCall
+	sids    []string
+	last    map[string]string // sid -> last observed state
+	hist    map[string][]string
+	nClientsDone int
+	nClients     int
+	stopReq map[string]int
+}
+
+func (z *zzBub) fail(prop, check, format string, args ...interface{}) {
+	if prop == z.focus {
+		z.r.Fail(prop+"/"+check, format, args...)
+	} else {
+		z.r.Count("offfocus:"+prop+"/"+check, 1)
+	}
+}
+
+func (z *zzBub) begin(client int, what, sid string) *zzCall {
+	z.seq++
+	c := &zzCall{client: client, what: what, sid: sid, inv: z.seq}
+	z.calls = append(z.calls, c)
+	return c
+}
+
+func (z *zzBub) end(c *zzCall, err error) {
+	z.seq++
+	c.ret, c.err = z.seq, err
+	z.r.Event("c%d %s %s -> %v", c.client, c.what, zzShortSid(c.sid), err)
+}
+
+func zzShortSid(s string) string {
+	if len(s) > 8 {
+		return s[:8]
+	}
+	return s
+}
+
+var zzLegal = map[string]bool{
+	"registered>plotting": true, "plotting>ready": true, "plotting>mining": true, "plotting>registered": true,
+	"ready>mining": true, "mining>ready": true, "registered>ready": true,
+	"registered>absent": true, "ready>absent": true,
+}
+
+// zzReachable: cur can be reached from prev along at most n documented transitions (the observer
+// skips the moments at which the state lock is held, so intermediate states may go unseen).
+func zzReachable(prev, cur string, n int) bool {
+	if n == 0 {
+		return false
+	}
+	if zzLegal[prev+">"+cur] {
+		return true
+	}
+	for _, mid := range []string{"registered", "plotting", "ready", "mining"} {
+		if zzLegal[prev+">"+mid] && zzReachable(mid, cur, n-1) {
+			return true
+		}
+	}
+	return false
+}
+
+// observe is called by the scheduler whenever everything is parked or blocked.
+func (z *zzBub) observe() {
+	sk := z.sk
+	if sk == nil {
+		return
+	}
+	// (the keeper's transitions contain no scheduling point between their index updates, so the
+	// indexes are consistent at every quiescent moment, also while someone holds the state lock)
+	z.seq++
+	all := sk.workSpaceIndex[allState].Items()
+	nPlotting := 0
+	for _, sid := range z.sids {
+		ws, ok := all[sid]
+		cur := "absent"
+		if ok {
+			n := 0
+			where := ""
+			for s := engine.FirstState; s <= engine.LastState; s++ {
+				if _, in := sk.workSpaceIndex[s].Get(sid); in {
+					n++
+					where = s.String()
+				}
+			}
+			if n != 1 {
+				z.fail("C09", "not-exactly-one-state/index", "space %s is in %d state indexes", zzShortSid(sid), n)
+				return
+			}
+			if where != ws.state.String() {
+				z.fail("C09", "state-field-disagrees/index", "space %s is indexed as %s but its state field says %s", zzShortSid(sid), where, ws.state)
+				return
+			}
+			cur = where
+			if cur == "plotting" {
+				nPlotting++
+			}
+		}
+		prev := z.last[sid]
+		if prev != cur {
+			z.r.Event("  state %s: %s -> %s (event %d)", zzShortSid(sid), prev, cur, z.seq)
+			if prev != "" && !zzReachable(prev, cur, 3) {
+				z.fail("C09", "undocumented-transition/"+prev+">"+cur, "space %s went from %s to %s", zzShortSid(sid), prev, cur)
+			}
+			if cur == "plotting" || (cur == "mining" && prev != "plotting") {
+				z.checkAsked(sid, cur)
+			}
+			z.last[sid] = cur
+			z.hist[sid] = append(z.hist[sid], cur)
+		}
+	}
+	if nPlotting > 1 {
+		z.fail("C09", "two-spaces-plotting/index", "%d spaces are plotting at the same time", nPlotting)
+	}
+	z.r.State(zzH(fmt.Sprint(z.last)))
+}
+
+// checkAsked: a space enters plotting (or mining) only if a plot/mine request could still be in
+// effect: some such request was invoked, and it did not complete before the invocation of the
+// latest completed stop for this space.
+func (z *zzBub) checkAsked(sid, entering string) {
+	lastStopInv, lastStopRet := 0, 0
+	for _, c := range z.calls {
+		if (c.what == "stop" && c.sid == sid || c.what == "bulk-stop" && c.applies(sid) && c.acted[sid] == nil || c.what == "keeper-stop") && c.ret != 0 && c.err == nil {
+			if c.inv > lastStopInv {
+				lastStopInv, lastStopRet = c.inv, c.ret
+			}
+		}
+	}
+	asked := false
+	for _, c := range z.calls {
+		switch {
+		case (c.what == "plot" || c.what == "mine" || c.what == "burst-plot" || c.what == "burst-mine") && c.sid == sid,
+			(c.what == "bulk-plot" || c.what == "bulk-mine") && c.applies(sid), c.what == "configure-exec":
+			if entering == "mining" && !(strings.Contains(c.what, "mine") || c.what == "configure-exec") {
+				continue
+			}
+			if c.ret == 0 || c.ret > lastStopInv {
+				asked = true
+			}
+		}
+	}
+	if !asked {
+		z.fail("C09", "plotted-after-stop/"+entering, "space %s entered %s at event %d although every plot/mine request for it had completed before the stop invoked at event %d (returned at %d), and nothing asked again",
+			zzShortSid(sid), entering, z.seq, lastStopInv, lastStopRet)
+	}
+}
+
+func zzRunC09(r *sim.Run) { zzRunBubble(r, "C09") }
+func zzRunC13(r *sim.Run) { zzRunBubble(r, "C13") }
+
+func zzRunBubble(r *sim.Run, focus string) {
+	t := r.T
+	z := &zzBub{r: r, focus: focus, last: map[string]string{}, hist: map[string][]string{}, stopReq: map[string]int{}}
+	b := vsim.NewBubble(t.Choose)
+	z.b = b
+	b.OnQuiescent = z.observe
+	if os.Getenv("VERIF_SCHEDTRACE") != "" {
+		b.Trace = func(f string, a ...interface{}) { r.Event("    "+f, a...) }
+	}
+	vsim.TakePanics()
+	bl := 7 + t.Choose("bl", 2)
+	nspaces := 1 + t.Choose("nspaces", 3)
+	z.nClients = 1 + t.Choose("nclients", 3)
+	burstMax := 0
+	if focus == "C13" && t.Bool("bursts", 1, 2) {
+		burstMax = []int{8, 64, 1100, 2300}[t.Choose("burst.max", 4)]
+	}
+	maxSteps := 8000 + burstMax*3*10
+	var stopHung, clientsHung bool
+	var liveAfter []string
+	var liveBase int
+
+	leaked, perr := vsim.RunBubble(zzTestingT, b, func() {
+		e := zzNewEnvK(r, 1)
+		r.StepBudget = 0
+		e.disk.StepFn = nil
+		z.e = e
+		e.wallet.Unlock(nil)
+		// plots run through several memory windows so that a stop can land inside a plot
+		massdb_v1.VerifCacheSize = func(req uint64) (uint64, bool) {
+			sz := req / uint64(1+t.Choose("win.div", 4))
+			if sz < 8 {
+				sz = 8
+			}
+			if sz > req {
+				sz = req
+			}
+			return sz, true
+		}
+		defer func() { massdb_v1.VerifCacheSize = nil }()
+		sk, err := e.newKeeper(e.dirs)
+		if err != nil {
+			sim.EngineError("keeper: %v", err)
+		}
+		z.sk = sk
+		e.sk = sk
+		execPlot := t.Bool("cfg.plot", 1, 3)
+		execMine := t.Bool("cfg.mine", 1, 4)
+		cfg := z.begin(0, zzIfS(execPlot || execMine, "configure-exec", "configure"), "")
+		infos, err := sk.ConfigureByBitLength(map[int]int{bl: nspaces}, execPlot, execMine)
+		z.end(cfg, err)
+		if err != nil {
+			sim.EngineError("configure: %v", err)
+		}
+		for _, in := range infos {
+			z.sids = append(z.sids, in.SpaceID)
+		}
+		sort.Strings(z.sids)
+		liveBase = len(b.LiveGoroutines())
+		if err := sk.Start(); err != nil {
+			sim.EngineError("start: %v", err)
+		}
+		for c := 1; c <= z.nClients; c++ {
+			c := c
+			nops := 2 + t.Choose("client.nops", 9)
+			ops := make([]func(), 0, nops)
+			for i := 0; i < nops; i++ {
+				ops = append(ops, z.genOp(c, burstMax))
+			}
+			b.Go(fmt.Sprintf("client-%d", c), func() {
+				for _, op := range ops {
+					op()
+				}
+				z.nClientsDone++
+			})
+		}
+		reason := b.RunUntil(func() bool { return z.nClientsDone == z.nClients }, 30*time.Minute, maxSteps, true)
+		r.SimTime += 0
+		if reason == vsim.Budget {
+			// the scheduling-step budget ran out while requests were still being served: inconclusive
+			clientsHung = true
+			r.Count("inconclusive:step-budget", 1)
+		} else if reason != vsim.Done {
+			clientsHung = true
+			z.reportHang(reason, "while client requests were outstanding")
+		}
+		if !clientsHung && !r.Failed() {
+			// let the plotter drain: liveness is stated only once the clients have stopped issuing requests
+			idle := func() bool { return false }
+			b.RunUntil(idle, 10*time.Minute, 4000, false)
+			z.quiescentChecks()
+		}
+		// keeper shutdown must terminate
+		if !r.Failed() && !clientsHung {
+			stopped := false
+			b.Go("stopper", func() {
+				c := z.begin(9, "keeper-stop", "")
+				err := sk.Stop()
+				z.end(c, err)
+				stopped = true
+			})
+			reason := b.RunUntil(func() bool { return stopped }, 30*time.Minute, 4000, false)
+			if reason != vsim.Done {
+				stopHung = true
+				z.fail("C13", "keeper-stop-hangs/"+zzReason(reason), "SpaceKeeper.Stop did not return (%s); live goroutines: %v", zzReason(reason), b.LiveGoroutines())
+			} else {
+				b.RunUntil(func() bool { return false }, time.Minute, 500, false)
+				liveAfter = b.LiveGoroutines()
+			}
+		}
+		for _, gp := range vsim.TakePanics() {
+			z.fail("C13", "panic/"+sim.PanicSite(gp.Stack), "goroutine %s panicked: %v", gp.Site, gp.Val)
+		}
+		// end of run: release what the harness created, kill what is still parked
+		for _, ws := range sk.workSpaceIndex[allState].Items() {
+			_ = ws
+		}
+		sk.workerPool.Release()
+		b.KillAll()
+	})
+	r.Preempts += b.Preempt
+	r.Ops += len(z.calls)
+	r.Count("sched-steps", b.Steps)
+	for site, n := range b.Sites {
+		if n > 0 && strings.Contains(site, "space_plotter.go") {
+			r.Count("site:"+site[strings.LastIndex(site, "/")+1:], n)
+		}
+	}
+	if perr != nil {
+		r.Event("bubble ended with panic: %v", perr)
+		z.fail("C13", "panic/bubble", "bubble ended with panic: %v", perr)
+	}
+	_ = leaked
+	if !stopHung && !clientsHung && !r.Failed() && len(liveAfter) > liveBase {
+		z.fail("C13", "goroutine-leak/after-stop", "after Stop returned, keeper goroutines are still alive: %v", liveAfter)
+	}
+}
+
+func zzReason(s vsim.StopReason) string {
+	return [...]string{"done", "everything blocked", "time horizon", "step budget"}[s]
+}
+
+func (z *zzBub) reportHang(reason vsim.StopReason, when string) {
+	var inflight []string
+	for _, c := range z.calls {
+		if c.ret == 0 {
+			inflight = append(inflight, fmt.Sprintf("c%d:%s(%s)", c.client, c.what, zzShortSid(c.sid)))
+		}
+	}
+	what := "unknown"
+	if len(inflight) > 0 {
+		what = z.calls[len(z.calls)-1].what
+		for _, c := range z.calls {
+			if c.ret == 0 {
+				what = c.what
+				break
+			}
+		}
+	}
+	z.fail("C13", "request-never-returns/"+what+"/"+zzReason(reason), "%s %s: calls still in flight %v; live goroutines %v; state lock held=%v; hand-off channel %d/%d",
+		zzReason(reason), when, inflight, z.b.LiveGoroutines(), z.sk.stateLock.Held(), len(z.sk.newQueuedWorkSpaceCh), cap(z.sk.newQueuedWorkSpaceCh))
+}
+
+// quiescentChecks: no client is active and the plotter is idle - queries must agree.
+func (z *zzBub) quiescentChecks() {
+	sk := z.sk
+	done := false
+	z.b.Go("query-client", func() {
+		defer func() { done = true }()
+		flagSets := []engine.WorkSpaceStateFlags{engine.SFRegistered, engine.SFPlotting, engine.SFReady, engine.SFMining, engine.SFAll,
+			engine.SFRegistered | engine.SFReady, engine.SFPlotting | engine.SFMining}
+		union := map[string]bool{}
+		for _, f := range flagSets {
+			ids, err1 := sk.WorkSpaceIDs(f)
+			infos, err2 := sk.WorkSpaceInfos(f)
+			if err1 != nil || err2 != nil {
+				continue
+			}
+			a := append([]string{}, ids...)
+			var bb []string
+			for _, in := range infos {
+				bb = append(bb, in.SpaceID)
+				if !f.Contains(in.State.Flag()) && !f.Contains(engine.SFAll) {
+					z.fail("C09", "query-state-outside-filter/infos", "WorkSpaceInfos(%v) returned space %s in state %s", f, zzShortSid(in.SpaceID), in.State)
+				}
+			}
+			sort.Strings(a)
+			sort.Strings(bb)
+			if fmt.Sprint(a) != fmt.Sprint(bb) {
+				z.fail("C09", "ids-and-infos-disagree/query", "WorkSpaceIDs(%v) = %v but WorkSpaceInfos gives %v", f, a, bb)
+			}
+			if f != engine.SFAll && f&(f-1) == 0 {
+				for _, id := range a {
+					union[id] = true
+				}
+			}
+			if f == engine.SFAll && len(union) != len(a) {
+				z.fail("C09", "single-flags-do-not-cover-all/query", "the four single-state listings cover %d spaces, the all-listing has %d", len(union), len(a))
+			}
+		}
+		if sk.Started() {
+			var ch pocutil.Hash
+			proofs, err := sk.GetProofs(context.Background(), engine.SFMining, ch, false)
+			if err == nil {
+				for _, p := range proofs {
+					if ws, ok := sk.workSpaceIndex[allState].Get(p.SpaceID); !ok || ws.state != engine.Mining {
+						z.fail("C09", "non-mining-space-offered/GetProofs", "GetProofs(mining) returned space %s whose state is not mining", zzShortSid(p.SpaceID))
+					}
+				}
+			}
+		}
+	})
+	z.b.RunUntil(func() bool { return done }, 5*time.Minute, 3000, false)
+	if !done {
+		z.reportHang(vsim.Budget, "during the final queries")
+	}
+}
+
+// genOp draws one client operation (closures are generated up front: the program of a client
+// does not depend on what it observes).
+func (z *zzBub) genOp(client, burstMax int) func() {
+	t := z.r.T
+	sk := z.sk
+	pick := func() string { return z.sids[t.Choose("op.sid", len(z.sids))] }
+	acts := []engine.ActionType{engine.Plot, engine.Mine, engine.Stop, engine.Remove, engine.Delete}
+	names := []string{"plot", "mine", "stop", "remove", "delete"}
+	w := []int{8, 6, 8, 2, 2, 3, 3, 0, 0}
+	if z.focus == "C13" {
+		w = []int{8, 6, 8, 2, 2, 3, 3, 3, 0}
+		if burstMax > 0 {
+			w[8] = 6
+		}
+	}
+	switch t.Weighted("op.kind", w) {
+	case 0, 1, 2, 3, 4:
+		k := t.Choose("op.act", 5)
+		if k >= 3 && !t.Bool("op.destructive", 1, 3) {
+			k = t.Choose("op.act2", 3)
+		}
+		sid := pick()
+		return func() {
+			c := z.begin(client, names[k], sid)
+			err := sk.ActOnWorkSpace(sid, acts[k])
+			z.end(c, err)
+		}
+	case 5:
+		k := t.Choose("bulk.act", 3)
+		flags := []engine.WorkSpaceStateFlags{engine.SFAll, engine.SFRegistered, engine.SFReady | engine.SFMining, engine.SFPlotting}[t.Choose("bulk.flags", 4)]
+		return func() {
+			c := z.begin(client, "bulk-"+names[k], "")
+			errs, err := sk.ActOnWorkSpaces(flags, acts[k])
+			if errs == nil {
+				errs = map[string]error{}
+			}
+			c.acted = errs
+			z.end(c, err)
+		}
+	case 6:
+		flags := []engine.WorkSpaceStateFlags{engine.SFAll, engine.SFMining, engine.SFPlotting | engine.SFRegistered}[t.Choose("q.flags", 3)]
+		return func() {
+			c := z.begin(client, "query", "")
+			_, err := sk.WorkSpaceInfos(flags)
+			sk.WorkSpaceIDs(flags)
+			z.end(c, err)
+		}
+	case 7:
+		// keeper stop (and start again) from an API client
+		again := t.Bool("restart", 2, 3)
+		return func() {
+			c := z.begin(client, "keeper-stop", "")
+			err := sk.Stop()
+			z.end(c, err)
+			if again {
+				c2 := z.begin(client, "keeper-start", "")
+				err := sk.Start()
+				z.end(c2, err)
+			}
+		}
+	default:
+		// a burst of identical requests (any number may be outstanding)
+		sid := pick()
+		k := t.Choose("burst.act", 2)
+		n := 2 + t.Choose("burst.n", burstMax)
+		return func() {
+			c := z.begin(client, "burst-"+names[k], sid)
+			var err error
+			for i := 0; i < n; i++ {
+				err = sk.ActOnWorkSpace(sid, acts[k])
+			}
+			z.end(c, err)
+		}
+	}
+}
+
+var _ = vos.None
